@@ -318,6 +318,18 @@ def scenario_scope(res, pid, rng, tier):
                  dict(ctx, anonymized_length=len(got[0])), got, back, exp_b)
     res.nt(("scn", "growing"))
 
+    # ---- L. the empty string is a salt like any other: two anonymizers built with it agree, and compute its map
+    ls = ["ip address %s" % v4(rnd()) for _ in range(5)] + ["set address 2001:db8::%x" % rng.randint(1, 9999)]
+    ctx = {"salt": ""}
+    g1 = _try(fails, "empty salt", ctx, lambda: _run(_fa(""), ls))
+    g2 = _try(fails, "empty salt", ctx, lambda: _run(_fa(""), ls))
+    res.evaluations += 2 * len(ls)
+    if g1 is not None and g2 is not None:
+        if g1 != g2:
+            fails.append(dict(ctx, kind="two anonymizers built with the empty salt map the same addresses differently", lines=ls, first=g1, second=g2))
+        _cmp(fails, "an anonymizer built with the empty salt does not compute the map of that salt", ctx, ls, g1, spec_lines("", ls))
+    res.nt(("scn", "empty-salt"))
+
     # ---- K. IPv6 entries in the lists of the IPv4 anonymizer
     v6net = "2001:db8:%x::/48" % rng.randint(1, 65000)
     ls = ["set address 2001:db8:%s::1" % v6net.split(":")[2], "set address 2001:db8:ffff::%x" % rng.randint(1, 999),
